@@ -319,7 +319,7 @@ def check_tree(t):
     from dagrt.codegen.dag_ast import simplify_ast
     ast = build(t)
     try:
-        with kernel.time_limit(20):
+        with kernel.time_limit(120):
             res = simplify_ast(ast)
     except kernel.Budget:
         # confirm deterministically
